@@ -198,7 +198,7 @@ def run_session(tag, cfg, seed, ops_filter=None, redeliver=True, setup_only=Fals
     if setup_only:
         s.ok = True
         return s
-    ops = ["ping"] * 6 + ["up"] * 3 + ["down"] * 5 + ["burst", "idle", "id0", "aux", "hs", "badip", "downsoon", "upsmall", "rawop", "refrag", "refrag", "dupsoon", "dupsoon", "c2c", "c2c", "reborn", "lazyoff", "reflect", "reflect", "dupv"]
+    ops = ["ping"] * 6 + ["up"] * 3 + ["down"] * 5 + ["burst", "idle", "id0", "aux", "hs", "badip", "downsoon", "upsmall", "rawop", "refrag", "refrag", "dupsoon", "dupsoon", "c2c", "c2c", "reborn", "lazyoff", "reflect", "reflect", "dupv", "staleack"]
     if cfg.get("sendfaults"):
         ops += ["sendfault"] * 3 + ["dupfault"] * 2
     if s.fwd is not None:
@@ -528,6 +528,26 @@ def do_op(s, mc, op, rng):
         if len(k.send_faults) < 2:
             k.send_faults.append({"proc": "srv", "dst_port": None, "errno": rng.choice([105, 1, 11]), "count": 1,
                                   "skip": rng.choice([0, 0, 1, 1, 2, 3])})
+    elif op == "staleack":
+        # A one-fragment packet is fetched; the next, larger packet reaches the server while it holds no query of the session
+        # (so it waits unsent); the first query to arrive then carries an acknowledgement that happens to name that packet's
+        # sequence number and fragment 0 - what a query from eight packets ago looks like after the 3-bit counter wrapped.
+        # Nothing of the waiting packet has been sent, so there is nothing to acknowledge: it starts with fragment 0.
+        mc.drain()
+        f1 = mk_frame(s, mc, "down", rng, size=rng.choice([32, 40]))
+        s.offered_down.append(f1)
+        k.offer_tun("srv", f1, s.ident)
+        mc.pump(300000, 30000)
+        mc.drain()
+        k.run(k.now + 100000)
+        f2 = proto.make_frame(s.server_tun_ip, mc.tun_ip, (s.ident << 8) | 0x5A, rng.choice([600, 1000]), "random", rng)
+        s.ident += 1
+        s.offered_down.append(f2)
+        k.offer_tun("srv", f2, s.ident)
+        k.run(k.now + rng.choice([2000, 30000]))
+        mc.query(proto.msg_ping(mc.domain, mc.userid, (mc.dn_seq + 1) & 7, 0, mc.new_cmc()))
+        k.run(k.now + 30000)
+        mc.pump(rng.choice([400000, 1200000]), 40000)
     elif op == "dupv":
         # a relay delivers the session's own version request once more, long after the handshake (byte for byte; same or new
         # DNS id).  Whoever that makes the server greet, the established session's settings stay what they were.
